@@ -131,8 +131,15 @@ Enq(k, c, a) == mq' = Append(mq, [k |-> k, c |-> c, a |-> a])
 (* Connections come and go *)
 \* a peer connects to us (incoming) or we connect to a tracker candidate (outgoing); the manager
 \* creates the Peer record and spawns the connection task (spawn_peer_listener / spawn_peer_handler)
+\* (beyond the listed properties) the listener takes no new peer while MAX_NOT_INTERESTED connected peers have
+\* nothing we want; connections we open ourselves are not limited this way
+MaxNotInterested == 4
+NotInterestedNum == Cardinality({x \in Conn : ~mp[x].amInt})
+ConnectRefused == /\ ~panic /\ NotInterestedNum >= MaxNotInterested
+                  /\ NoSend /\ UNCHANGED <<st, mp, mg, mq, h, bq, stored, wire, panic, ann>>
 Connect(k, inc) ==
   /\ ~panic
+  /\ inc => NotInterestedNum < MaxNotInterested
   /\ k \notin Conn /\ ~h[k].alive
   /\ \A i \in 1..Len(mq) : mq[i].k # k              \* the previous incarnation was cleaned up
   /\ mp' = [x \in Conn \cup {k} |-> IF x = k THEN NewPeer ELSE mp[x]]
